@@ -147,7 +147,7 @@ class BatchSage:
         for n, (x_i, y_i) in tqdm(enumerate(zip(x_data, y_data), start=1), total=n_data,
                                   disable=not verbose):
             permutation_chain = np.random.permutation(self.feature_names)
-            loss_previous = self._loss_function(y_true=y_i, y_prediction=marginal_prediction)
+            loss_previous = self._loss_function(y_i, marginal_prediction)
             features_not_in_s = set(self.feature_names)
             for feature in permutation_chain:
                 features_not_in_s.remove(feature)
@@ -157,7 +157,7 @@ class BatchSage:
                     n_samples=n_inner_samples
                 )
                 y = _get_mean_model_output(predictions)
-                feature_loss = self._loss_function(y_true=y_i, y_prediction=y)
+                feature_loss = self._loss_function(y_i, y)
                 marginal_contribution = loss_previous - feature_loss
                 sage_values[feature] += marginal_contribution
                 loss_previous = feature_loss
@@ -198,7 +198,7 @@ class BatchSage:
                                   disable=not verbose):
             permutation_chain = np.random.permutation(self.feature_names)
             x_s = {}
-            loss_previous = self._loss_function(y_true=y_i, y_prediction=marginal_prediction)
+            loss_previous = self._loss_function(y_i, marginal_prediction)
             for feature in permutation_chain:
                 x_s[feature] = x_i[feature]
                 predictions = []
@@ -207,7 +207,7 @@ class BatchSage:
                     x_marginal = {**x_marginal, **x_s}
                     predictions.append(self._model_function(x_marginal))
                 y = _get_mean_model_output(predictions)
-                feature_loss = self._loss_function(y_true=y_i, y_prediction=y)
+                feature_loss = self._loss_function(y_i, y)
                 marginal_contribution = loss_previous - feature_loss
                 sage_values[feature] += marginal_contribution
                 loss_previous = feature_loss
